@@ -9,7 +9,7 @@ func init() {
 			"that crossing a tick adds the signed net liquidity of exactly that tick (negated for zero-for-one) and moves the current tick to next−1 / next; that ticks are removed only when reported empty and the pool is uninitialised only when no position remains; and that the low-level writers of ticks, positions and pool price have only the listed callers.",
 		NotCovered:  []string{"the invariant itself over histories", "price/tick agreement as numbers (C14)"},
 		Assumptions: []string{"KV store semantics"},
-		MinObl:      56,
+		MinObl:      57,
 		Run:         runC07,
 	})
 }
